@@ -63,7 +63,7 @@ def kernel_side_strategy():
         "counter": st.sampled_from([0, 1, 2, 3, 254, 255])
         | st.integers(0, 2**32 - 1),
         "registered": st.sampled_from([True, True, True, False]),
-        "wkc_errors": st.sampled_from([0, 1, 1, 7, 2**32 - 1]),
+        "wkc_errors": st.sampled_from([0, 1, 1, 7, 65535, 65536, 2**32 - 1]),
         "wrong_delta": st.sampled_from([1, 1, 255, 256, 513, 65535]),
         "rules": st.lists(rule, min_size=3, max_size=25).map(
             lambda rs: [("inject", 0, []), ("inject", 0, [])] + rs),
